@@ -71,11 +71,11 @@ func runC10(e *Env) {
 	e.S.Floor("C10.case", 1)
 	ruleErrZero(e, "C10.errzero", "roman")
 	ruleWrap(e, "C10.wrap", "roman")
-	ruleLimit(e, "C10.limit", "roman")
+	ruleLimitAccept(e, "C10.limit", "roman")
 	ruleTyped(e, "C10.typed", "roman")
 	e.S.Floor("C10.typed", 1)
 	e.S.Floor("C10.errzero", 3)
-	e.S.Floor("C10.limit", 4)
+	e.S.Floor("C10.limit", 2)
 }
 
 // romanReference builds the documented numeral language from the statement: any number of M, then a hundreds,
